@@ -152,8 +152,215 @@ pub fn handle_line(line: &str) -> Option<String> {
     Some(r)
 }
 
-pub fn float_ops(_op: &str, _a: &[&str]) -> Option<String> {
-    None
+fn show_pts(l: &[(f64, f64)]) -> String {
+    if l.is_empty() {
+        "-".to_string()
+    } else {
+        l.iter()
+            .map(|(a, b)| format!("{},{}", show_f64(*a), show_f64(*b)))
+            .collect::<Vec<_>>()
+            .join(";")
+    }
+}
+
+fn orientation(n: u64) -> Option<a5::core::hilbert::Orientation> {
+    use a5::core::hilbert::Orientation::*;
+    Some(match n {
+        0 => UV,
+        1 => VU,
+        2 => UW,
+        3 => WU,
+        4 => VW,
+        5 => WV,
+        _ => return None,
+    })
+}
+
+fn ori_code(o: a5::core::hilbert::Orientation) -> u64 {
+    use a5::core::hilbert::Orientation::*;
+    match o {
+        UV => 0,
+        VU => 1,
+        UW => 2,
+        WU => 3,
+        VW => 4,
+        WV => 5,
+    }
+}
+
+pub fn float_ops(op: &str, a: &[&str]) -> Option<String> {
+    use a5::coordinate_systems::{Face, LonLat, Radians, Spherical, IJ};
+    use a5::core::cell::{a5cell_contains_point, CellToBoundaryOptions};
+    use a5::projections::dodecahedron::DodecahedronProjection;
+    let r = match (op, a.len()) {
+        ("lonlat_to_cell", 3) => {
+            let ll = LonLat::new(p_f64(a[0])?, p_f64(a[1])?);
+            let res = p_i32(a[2])?;
+            a5::core::cell::VERIF_LAST_BRANCH.with(|b| b.set(-3));
+            let r = a5::lonlat_to_cell(ll, res);
+            let br = a5::core::cell::VERIF_LAST_BRANCH.with(|b| b.get());
+            show(r, |x| format!("{} {}", x, br))
+        }
+        ("cell_to_lonlat", 1) => show(a5::cell_to_lonlat(p_u64(a[0])?), |ll| {
+            format!("{} {}", show_f64(ll.longitude()), show_f64(ll.latitude()))
+        }),
+        ("cell_to_boundary", 3) => {
+            let id = p_u64(a[0])?;
+            let closed = a[1] == "1";
+            let segments = if a[2] == "none" { None } else { Some(p_i32(a[2])?) };
+            show(
+                a5::cell_to_boundary(id, Some(CellToBoundaryOptions { closed_ring: closed, segments })),
+                |v| show_pts(&v.iter().map(|p| (p.longitude(), p.latitude())).collect::<Vec<_>>()),
+            )
+        }
+        ("contains", 3) => {
+            let id = p_u64(a[0])?;
+            let ll = LonLat::new(p_f64(a[1])?, p_f64(a[2])?);
+            show(
+                deserialize(id).and_then(|c| a5cell_contains_point(&c, ll)),
+                show_f64,
+            )
+        }
+        ("s_to_anchor", 3) => {
+            let an = a5::core::hilbert::s_to_anchor(p_u64(a[0])?, p_u64(a[1])? as usize, orientation(p_u64(a[2])?)?);
+            format!(
+                "ok {} {} {} {} {}",
+                an.k,
+                an.offset.x() as i64,
+                an.offset.y() as i64,
+                an.flips[0],
+                an.flips[1]
+            )
+        }
+        ("ij_to_s", 4) => format!(
+            "ok {}",
+            a5::core::hilbert::ij_to_s(
+                IJ::new(p_f64(a[0])?, p_f64(a[1])?),
+                p_u64(a[2])? as usize,
+                orientation(p_u64(a[3])?)?
+            )
+        ),
+        ("pentagon_vertices", 7) => {
+            let an = a5::core::hilbert::Anchor {
+                k: p_u64(a[2])? as u8,
+                offset: IJ::new(a[3].parse::<i64>().ok()? as f64, a[4].parse::<i64>().ok()? as f64),
+                flips: [a[5].parse::<i8>().ok()?, a[6].parse::<i8>().ok()?],
+            };
+            let p = a5::core::tiling::get_pentagon_vertices(p_i32(a[0])?, p_u64(a[1])? as usize, &an);
+            format!("ok {}", show_pts(&p.get_vertices_vec().iter().map(|v| (v.x(), v.y())).collect::<Vec<_>>()))
+        }
+        ("quintant_vertices", 1) => {
+            let p = a5::core::tiling::get_quintant_vertices(p_u64(a[0])? as usize);
+            format!("ok {}", show_pts(&p.get_vertices_vec().iter().map(|v| (v.x(), v.y())).collect::<Vec<_>>()))
+        }
+        ("face_vertices", 0) => {
+            let p = a5::core::tiling::get_face_vertices();
+            format!("ok {}", show_pts(&p.get_vertices_vec().iter().map(|v| (v.x(), v.y())).collect::<Vec<_>>()))
+        }
+        ("find_nearest_origin", 2) => {
+            let sp = Spherical::new(Radians::new_unchecked(p_f64(a[0])?), Radians::new_unchecked(p_f64(a[1])?));
+            format!("ok {}", a5::core::origin::find_nearest_origin(sp).id)
+        }
+        ("haversine", 4) => {
+            let p = Spherical::new(Radians::new_unchecked(p_f64(a[0])?), Radians::new_unchecked(p_f64(a[1])?));
+            let q = Spherical::new(Radians::new_unchecked(p_f64(a[2])?), Radians::new_unchecked(p_f64(a[3])?));
+            format!("ok {}", show_f64(a5::core::origin::haversine(p, q)))
+        }
+        ("q2s", 2) => {
+            let o = p_u64(a[1])? as usize;
+            let origins = a5::core::origin::get_origins();
+            if o >= origins.len() {
+                return None;
+            }
+            let (s, ori) = a5::core::origin::quintant_to_segment(p_u64(a[0])? as usize, &origins[o]);
+            format!("ok {} {}", s, ori_code(ori))
+        }
+        ("s2q", 2) => {
+            let o = p_u64(a[1])? as usize;
+            let origins = a5::core::origin::get_origins();
+            if o >= origins.len() {
+                return None;
+            }
+            let (q, ori) = a5::core::origin::segment_to_quintant(p_u64(a[0])? as usize, &origins[o]);
+            format!("ok {} {}", q, ori_code(ori))
+        }
+        ("dodeca_forward", 3) => {
+            let sp = Spherical::new(Radians::new_unchecked(p_f64(a[0])?), Radians::new_unchecked(p_f64(a[1])?));
+            let o = p_u64(a[2])?;
+            if o > 255 {
+                return None;
+            }
+            let d = DodecahedronProjection::get_thread_local();
+            show(d.forward(sp, o as u8), |f| format!("{} {}", show_f64(f.x()), show_f64(f.y())))
+        }
+        ("dodeca_inverse", 3) => {
+            let f = Face::new(p_f64(a[0])?, p_f64(a[1])?);
+            let o = p_u64(a[2])?;
+            if o > 255 {
+                return None;
+            }
+            let d = DodecahedronProjection::get_thread_local();
+            show(d.inverse(f, o as u8), |s| {
+                format!("{} {}", show_f64(s.theta().get()), show_f64(s.phi().get()))
+            })
+        }
+        ("authalic_forward", 1) => format!(
+            "ok {}",
+            show_f64(a5::projections::authalic::AuthalicProjection.forward(Radians::new_unchecked(p_f64(a[0])?)).get())
+        ),
+        ("authalic_inverse", 1) => format!(
+            "ok {}",
+            show_f64(a5::projections::authalic::AuthalicProjection.inverse(Radians::new_unchecked(p_f64(a[0])?)).get())
+        ),
+        ("from_lonlat", 2) => {
+            let s = a5::core::coordinate_transforms::from_lon_lat(LonLat::new(p_f64(a[0])?, p_f64(a[1])?));
+            format!("ok {} {}", show_f64(s.theta().get()), show_f64(s.phi().get()))
+        }
+        ("to_lonlat", 2) => {
+            let sp = Spherical::new(Radians::new_unchecked(p_f64(a[0])?), Radians::new_unchecked(p_f64(a[1])?));
+            let l = a5::core::coordinate_transforms::to_lon_lat(sp);
+            format!("ok {} {}", show_f64(l.longitude()), show_f64(l.latitude()))
+        }
+        ("cell_area", 1) => format!("ok {}", show_f64(a5::cell_area(p_i32(a[0])?))),
+        ("quintant_polar", 1) => {
+            let pol = a5::coordinate_systems::Polar::new(1.0, Radians::new_unchecked(p_f64(a[0])?));
+            format!("ok {}", a5::core::tiling::get_quintant_polar(pol))
+        }
+        ("consts", 0) => {
+            use a5::core::pentagon as pg;
+            let pts = [pg::a(), pg::b(), pg::c(), pg::d(), pg::e(), pg::u(), pg::v(), pg::w()];
+            let b = pg::basis();
+            let bi = pg::basis_inverse();
+            let ms = [b.m00, b.m01, b.m10, b.m11, bi.m00, bi.m01, bi.m10, bi.m11];
+            let os: Vec<String> = a5::core::origin::get_origins()
+                .iter()
+                .map(|o| {
+                    format!(
+                        "{}:{}:{}:{}:{}",
+                        o.id,
+                        show_f64(o.axis.theta().get()),
+                        show_f64(o.axis.phi().get()),
+                        show_f64(o.angle.get()),
+                        o.first_quintant
+                    )
+                })
+                .collect();
+            format!(
+                "ok {} | {} | {}",
+                pts.iter().map(|p| format!("{} {}", show_f64(p.x()), show_f64(p.y()))).collect::<Vec<_>>().join(" "),
+                ms.iter().map(|x| show_f64(*x)).collect::<Vec<_>>().join(" "),
+                os.join(" ")
+            )
+        }
+        ("memo_fill", 0) => {
+            let (f, s, n) = DodecahedronProjection::verif_memo_fill();
+            let fs: String = f.iter().map(|b| if *b { '1' } else { '0' }).collect();
+            let ss: String = s.iter().map(|b| if *b { '1' } else { '0' }).collect();
+            format!("ok {} {} {}", fs, ss, n)
+        }
+        _ => return None,
+    };
+    Some(r)
 }
 
 pub fn handle_line_caught(line: &str) -> String {
